@@ -43,6 +43,7 @@ func (sc *Scenario) alphabet(c int) []string {
 type budget struct {
 	k, y, u, d, e int
 	perClient     []int
+	lateAttached  []bool
 }
 
 // candidates lists the events that may extend a history, in canonical order
@@ -70,8 +71,8 @@ func (sc *Scenario) candidates(b *budget) []Event {
 			if sc.Deact {
 				out = append(out, Event{K: "deact", C: c})
 			}
-		} else if c >= sc.N && sc.D == 0 && sc.Late > 0 {
-			// late clients may always attach once
+		} else if c >= sc.N && sc.D == 0 && !b.lateAttached[c] {
+			// a late client may attach exactly once, at any position
 			out = append(out, Event{K: "at", C: c})
 		}
 	}
@@ -95,6 +96,8 @@ func (b *budget) add(sc *Scenario, e Event, sign int) {
 	case "dt", "at", "deact":
 		if sc.D > 0 {
 			b.d += sign
+		} else if e.K == "at" {
+			b.lateAttached[e.C] = sign > 0
 		}
 	default:
 		b.e += sign
@@ -153,7 +156,7 @@ type EnumStats struct {
 // visitor not to count them unless shard 0).
 func Enumerate(sc *Scenario, shardDepth, shard, nshards int, visit func(h []Event, mine bool) bool) EnumStats {
 	var st EnumStats
-	b := &budget{perClient: make([]int, sc.N+sc.Late)}
+	b := &budget{perClient: make([]int, sc.N+sc.Late), lateAttached: make([]bool, sc.N+sc.Late)}
 	var h []Event
 	subtree := 0
 	var rec func(owned bool)
